@@ -13,6 +13,15 @@ EXTRA = {"i": 990, "f": 99.5, "O": "zzz"}   # label appended by the 'slice' stat
 NPDT = {"i": np.int64, "f": np.float64, "O": object}
 
 
+def extra_label(labels, kind):
+    """label appended by the 'slice' variant: breaks the monotonicity of the big axis when the slice itself is sorted, so that a
+    cached 'not monotonic' verdict of the source is stale for the slice"""
+    lo, hi = {"i": (1, 990), "f": (-9.5, 99.5), "O": ("A", "zzz")}[kind]
+    if len(labels) >= 2 and all(labels[i] < labels[i + 1] for i in range(len(labels) - 1)):
+        return lo
+    return hi
+
+
 def labels_of(kind, n, order="inc"):
     """order: 'inc' | 'dec' | 'shuf' (a fixed derangement-like shuffle) | tuple permutation"""
     base = BASE[kind][:n]
@@ -128,7 +137,7 @@ def build_impl(s):
             b = DimArray(np.ascontiguousarray(vals.transpose(perm)), axes=[axes[i] for i in perm])
             a = b.transpose(*s["dims"])
         elif var == "slice":
-            big_labels = [list(l) + [EXTRA[k]] for l, k in zip(s["labels"], s["kinds"])]
+            big_labels = [list(l) + [extra_label(l, k)] for l, k in zip(s["labels"], s["kinds"])]
             big = np.zeros([len(l) for l in big_labels], dtype=vals.dtype)
             if vals.dtype == object:
                 big[...] = "pad"
